@@ -607,12 +607,12 @@ class RecurringPattern(Timeline[IvlOut], Generic[IvlOut]):
 
         # 4. Stream results
         for occurrence in rules:
-            # Check if this occurrence is excluded
-            timestamp = int(occurrence.timestamp())
-            if timestamp in self.exdates:
-                continue
-
             ivl = self._occurrence_to_interval(occurrence)
+
+            # Check if this occurrence is excluded (exdates hold the start
+            # timestamps of the excluded occurrences)
+            if ivl.start in self.exdates:
+                continue
 
             # Fast-forward: Skip if it ends before our query window
             if ivl.end is not None and ivl.end <= start:
